@@ -67,6 +67,11 @@ where
     ///
     /// If the bounds aren't valid within the current string slice, then None is returned.
     pub fn with_bounds(&self, bounds: Range<usize>) -> Option<Self> {
+        // The new bounds have to be within this slice, not just within the shared data
+        if bounds.end > self.bounds.end.to_usize() - self.bounds.start.to_usize() {
+            return None;
+        }
+
         let new_bounds = (bounds.start + self.bounds.start.to_usize())
             ..(bounds.end + self.bounds.start.to_usize());
 
